@@ -5,6 +5,9 @@
 //
 // The statement list of every function comes from go/ast (go/parser without comments, one
 // entry per top-level statement of the body, rendered by go/printer, whitespace collapsed).
+// Before rendering, the variables of a function are renamed: canonically (alphaRename: r0, p0…, o0…,
+// v0…) for the functions pinned as text, by ROLE (roleRename) for the interpreted wrappers, so no
+// output depends on a name the author chose for a receiver, parameter or local.
 // For the three versioned wrappers the statements are additionally *interpreted*: every
 // statement must match one of a closed set of shapes (header write, slice read, length check,
 // offset check, inner call, error propagation, return) and is emitted as plain data (what,
@@ -81,8 +84,204 @@ func funcDecl(f *ast.File, recv, name string) *ast.FuncDecl {
 	return nil
 }
 
+var canonName = regexp.MustCompile(`^[rpov][0-9]+$`)
+
+func localObj(fd *ast.FuncDecl, id *ast.Ident) bool {
+	if id.Obj == nil || id.Name == "_" || (id.Obj.Kind != ast.Var && id.Obj.Kind != ast.Con) {
+		return false
+	}
+	p := id.Obj.Pos()
+	return p >= fd.Pos() && p < fd.End()
+}
+
+// applyNames renames, in place, every identifier of fd whose object is in names; an identifier that
+// is NOT declared in fd but carries one of the new names (a package-level object that the renaming
+// would capture) makes the tool fail closed. Field / method names after a dot are not identifiers
+// of the scope and are left alone.
+func applyNames(fd *ast.FuncDecl, names map[*ast.Object]string, reserved func(string) bool) {
+	sels := map[*ast.Ident]bool{}
+	ast.Inspect(fd, func(n ast.Node) bool {
+		if s, ok := n.(*ast.SelectorExpr); ok {
+			sels[s.Sel] = true
+		}
+		return true
+	})
+	seen := map[string]*ast.Object{}
+	for o, n := range names {
+		if p, dup := seen[n]; dup && p != o {
+			die("%s: two variables would both be renamed %s (fail closed)", fd.Name.Name, n)
+		}
+		seen[n] = o
+	}
+	ast.Inspect(fd, func(n ast.Node) bool {
+		id, ok := n.(*ast.Ident)
+		if !ok || sels[id] {
+			return true
+		}
+		if nn, ok := names[id.Obj]; ok && id.Obj != nil {
+			id.Name = nn
+		} else if reserved(id.Name) && id != fd.Name {
+			die("%s: identifier `%s` clashes with the canonical names (fail closed)", fd.Name.Name, id.Name)
+		}
+		return true
+	})
+}
+
+// alphaRename renames, IN PLACE, every variable / constant declared inside fd to a canonical name:
+// receiver r0, parameters p0, p1, … by position, named results o0, …, locals v0, v1, … in the order of
+// their declaration in the source (every scope counts). Statement text rendered afterwards is the
+// same for two bodies that differ only in the names of their variables, and different otherwise (the
+// renaming is injective).
+func alphaRename(fd *ast.FuncDecl) {
+	names := map[*ast.Object]string{}
+	fields := func(fl *ast.FieldList, prefix string) {
+		if fl == nil {
+			return
+		}
+		i := 0
+		for _, f := range fl.List {
+			if len(f.Names) == 0 {
+				i++
+			}
+			for _, id := range f.Names {
+				if id.Name != "_" && id.Obj != nil {
+					names[id.Obj] = fmt.Sprintf("%s%d", prefix, i)
+				}
+				i++
+			}
+		}
+	}
+	fields(fd.Recv, "r")
+	fields(fd.Type.Params, "p")
+	fields(fd.Type.Results, "o")
+	nv := 0
+	ast.Inspect(fd.Body, func(n ast.Node) bool {
+		if id, ok := n.(*ast.Ident); ok && localObj(fd, id) {
+			if _, ok := names[id.Obj]; !ok {
+				names[id.Obj] = fmt.Sprintf("v%d", nv)
+				nv++
+			}
+		}
+		return true
+	})
+	applyNames(fd, names, canonName.MatchString)
+}
+
+var roleNames = map[string]bool{"dst": true, "buf": true, "version": true, "blinded": true, "valIdx": true,
+	"valFunc": true, "val": true, "err": true, "o1": true}
+
+// roleRename renames, IN PLACE, the parameters and locals of one of the six interpreted wrapper
+// functions to the names the statement shapes below are written with - chosen by ROLE, never by
+// the name in the source: a parameter by its type ([]byte = the buffer, eth2util.DataVersion,
+// bool, eth2p0.ValidatorIndex, func(…) = the inner-object callback), a local by the call that
+// defines it (the callback, eth2util.DataVersionFromUint64, ssz.UnmarshalBool,
+// eth2p0.ValidatorIndex(…), ssz.ReadOffset). A parameter type or a local definition outside this
+// closed set, two variables with one role, or a name the renaming would capture fail closed.
+func roleRename(fd *ast.FuncDecl, bufRole string) {
+	names := map[*ast.Object]string{}
+	var valFunc *ast.Object
+	for _, f := range fd.Type.Params.List {
+		role := ""
+		switch t := render(f.Type); {
+		case t == "[]byte":
+			role = bufRole
+		case t == "eth2util.DataVersion":
+			role = "version"
+		case t == "bool":
+			role = "blinded"
+		case t == "eth2p0.ValidatorIndex":
+			role = "valIdx"
+		case strings.HasPrefix(t, "func("):
+			role = "valFunc"
+		default:
+			die("%s: parameter type %s has no role (fail closed)", fd.Name.Name, t)
+		}
+		if len(f.Names) != 1 || f.Names[0].Obj == nil {
+			die("%s: parameter list not understood (fail closed)", fd.Name.Name)
+		}
+		names[f.Names[0].Obj] = role
+		if role == "valFunc" {
+			valFunc = f.Names[0].Obj
+		}
+	}
+	if fd.Type.Results != nil {
+		for _, f := range fd.Type.Results.List {
+			if len(f.Names) != 0 {
+				die("%s: named results (fail closed)", fd.Name.Name)
+			}
+		}
+	}
+	ast.Inspect(fd.Body, func(n ast.Node) bool {
+		as, ok := n.(*ast.AssignStmt)
+		if !ok || as.Tok != token.DEFINE {
+			return true
+		}
+		var roles []string
+		if len(as.Rhs) == 1 {
+			if c, ok := as.Rhs[0].(*ast.CallExpr); ok {
+				if id, ok := c.Fun.(*ast.Ident); ok && id.Obj != nil && id.Obj == valFunc {
+					roles = []string{"val", "err"}
+				} else {
+					switch render(c.Fun) {
+					case "eth2util.DataVersionFromUint64":
+						roles = []string{"version", "err"}
+					case "ssz.UnmarshalBool":
+						roles = []string{"blinded"}
+					case "eth2p0.ValidatorIndex":
+						roles = []string{"valIdx"}
+					case "ssz.ReadOffset":
+						roles = []string{"o1"}
+					}
+				}
+			}
+		}
+		if roles == nil || len(roles) != len(as.Lhs) {
+			die("%s: local definition has no role (fail closed): %s", fd.Name.Name, render(as))
+		}
+		for i, e := range as.Lhs {
+			id, ok := e.(*ast.Ident)
+			if !ok {
+				die("%s: local definition not understood (fail closed): %s", fd.Name.Name, render(as))
+			}
+			if id.Name == "_" {
+				continue
+			}
+			if !localObj(fd, id) {
+				die("%s: `%s` in %s is not a variable of the function (fail closed)", fd.Name.Name, id.Name, render(as))
+			}
+			if old, ok := names[id.Obj]; ok && old != roles[i] {
+				die("%s: `%s` has two roles, %s and %s (fail closed)", fd.Name.Name, id.Name, old, roles[i])
+			}
+			names[id.Obj] = roles[i]
+		}
+		return true
+	})
+	ast.Inspect(fd.Body, func(n ast.Node) bool {
+		if id, ok := n.(*ast.Ident); ok && localObj(fd, id) {
+			if _, ok := names[id.Obj]; !ok {
+				die("%s: variable `%s` has no role (fail closed)", fd.Name.Name, id.Name)
+			}
+		}
+		return true
+	})
+	applyNames(fd, names, func(s string) bool { return roleNames[s] })
+}
+
+// body: the statements of the function as text, variables renamed canonically (alphaRename).
 func body(f *ast.File, recv, name string) []string {
 	fd := funcDecl(f, recv, name)
+	alphaRename(fd)
+	return stmts(fd)
+}
+
+// bodyRole: the statements of an interpreted wrapper, variables renamed by role (roleRename).
+func bodyRole(f *ast.File, name, bufRole string) []string {
+	fd := funcDecl(f, "", name)
+	roleRename(fd, bufRole)
+	return stmts(fd)
+}
+
+func stmts(fd *ast.FuncDecl) []string {
 	var out []string
 	for _, s := range fd.Body.List {
 		out = append(out, render(s))
@@ -293,8 +492,15 @@ func acceptedVersions(f *ast.File, typ string) []string {
 		die("%s.sszValFromVersion: body is not a single switch", typ)
 	}
 	sw, ok := fd.Body.List[0].(*ast.SwitchStmt)
-	if !ok || render(sw.Tag) != "version" {
+	if !ok || sw.Init != nil {
 		die("%s.sszValFromVersion: not a switch on version", typ)
+	}
+	// the tag is the (first, eth2util.DataVersion) parameter of the function, whatever it is called
+	ps := fd.Type.Params.List
+	tag, isID := sw.Tag.(*ast.Ident)
+	if !isID || len(ps) == 0 || len(ps[0].Names) == 0 || ps[0].Names[0].Obj == nil || tag.Obj != ps[0].Names[0].Obj ||
+		render(ps[0].Type) != "eth2util.DataVersion" {
+		die("%s.sszValFromVersion: not a switch on the version parameter", typ)
 	}
 	var out []string
 	for _, cc := range sw.Body.List {
@@ -366,10 +572,10 @@ func main() {
 	}
 	w("/-! interpreted statement lists of the three versioned wrappers: (what, size | constant | lo, hi) -/\n")
 	for _, n := range []string{"marshalSSZVersionedBlindedTo", "marshalSSZVersionedValidatorIdxTo", "marshalSSZVersionedTo"} {
-		emit3(n, interpret(n, body(sszF, "", n), marshalShapes(c)))
+		emit3(n, interpret(n, bodyRole(sszF, n, "dst"), marshalShapes(c)))
 	}
 	for _, n := range []string{"unmarshalSSZVersionedBlinded", "unmarshalSSZVersionedValidatorIdx", "unmarshalSSZVersioned"} {
-		emit3(n, interpret(n, body(sszF, "", n), unmarshalShapes(c)))
+		emit3(n, interpret(n, bodyRole(sszF, n, "buf"), unmarshalShapes(c)))
 	}
 
 	types := []string{"VersionedSignedProposal", "VersionedProposal", "VersionedAttestation", "VersionedSignedAggregateAndProof", "VersionedAggregatedAttestation"}
@@ -396,7 +602,7 @@ func main() {
 		}
 		w("]\n")
 	}
-	w("/-! normalised statement text (go/printer, whitespace collapsed, comments dropped) -/\n")
+	w("/-! normalised statement text (go/printer, whitespace collapsed, comments dropped; receiver r0, parameters\n   p0, p1, … by position, named results o0, …, locals v0, v1, … in order of declaration) -/\n")
 	for _, t := range types {
 		emitBody(t+"_MarshalSSZTo", body(sszF, t, "MarshalSSZTo"))
 		emitBody(t+"_UnmarshalSSZ", body(sszF, t, "UnmarshalSSZ"))
